@@ -11,17 +11,25 @@ From Coq Require Import Lia.
    in use is at most loans + H + S*(B+M) <= S*(B+M) + H + L - 1, so the free list is not empty and
    the answer is never OutOfMemory. *)
 Theorem c08_pubsub_never_oom : forall w p,
-  pub_inv_b w p = true -> p_loans (getp w p) < p_L (getp w p) ->
+  pub_inv_b w p = true -> comps_empty w p -> p_loans (getp w p) < p_L (getp w p) ->
   p_free (getp w p) <> [] /\ forall w', pub_allocate_core w p <> Val (w', AErr EOutOfMemory).
 Proof. exact never_oom_at_allocation. Qed.
 Print Assumptions c08_pubsub_never_oom.
 
+(* the hypothesis comps_empty is what retrieve_returned_chunks establishes (proved on the world model,
+   for every world): pub_allocate w p = pub_allocate_core (pub_retrieve w p) p.  Between a reclaim and the
+   next push a connection can hold B + M + 1 chunks (the subscriber may release and receive while the
+   publisher waits in blocking_send); at the allocation micro-step it is B + M again. *)
+Theorem c08_retrieve_empties_completion_queues : forall w p, comps_empty (pub_retrieve w p) p.
+Proof. exact retrieve_empties_completion_queues. Qed.
+Print Assumptions c08_retrieve_empties_completion_queues.
+
 (* a state in which every chunk but one is in use (full buffer, full borrow, full history, one of
    two loans out) satisfies the hypotheses; one more loan saturates the segment exactly *)
 Example c08_pubsub_never_oom_nonvacuous :
-  pub_inv_b sat_before 0 = true /\ p_loans (getp sat_before 0) = 1 /\ p_L (getp sat_before 0) = 2
-  /\ length (p_free (getp sat_before 0)) = 1.
-Proof. exact sat_before_witness. Qed.
+  (pub_inv_b sat_before 0 = true /\ p_loans (getp sat_before 0) = 1 /\ p_L (getp sat_before 0) = 2
+   /\ length (p_free (getp sat_before 0)) = 1) /\ comps_empty sat_before 0.
+Proof. split; [exact sat_before_witness|exact sat_before_comps]. Qed.
 Print Assumptions c08_pubsub_never_oom_nonvacuous.
 
 Theorem c08_saturation_reachable :
@@ -32,11 +40,12 @@ Proof. exact sat_witness. Qed.
 Print Assumptions c08_saturation_reachable.
 
 (* ---- a release never fails for lack of queue space ---------------------------------------- *)
-(* the completion queue has B + M + 1 places; sub + borrowed + comp <= B + M is part of the
-   invariant, and a sample that is released was borrowed *)
+(* the completion queue has B + M + 1 places; sub + borrowed + comp <= B + M + 1 is part of the
+   invariant (B + M outside the publisher's blocking_send window, one more inside it), and a sample
+   that is released was borrowed, so at most B + M entries are queued before it *)
 Theorem c08_release_never_full : forall c bor o bor',
   conn_inv c bor -> minus_one bor o bor' ->
-  length (c_sub c) + length bor + length (c_comp c) <= c_B c + c_M c ->
+  length (c_sub c) + length bor + length (c_comp c) <= c_B c + c_M c + 1 ->
   exists c', c_release c o = Val (c', true)
              /\ c_sub c' = c_sub c /\ c_used c' = c_used c /\ c_comp c' = c_comp c ++ [o] /\ conn_inv c' bor'.
 Proof. exact release_spec. Qed.
@@ -83,7 +92,7 @@ Theorem c08_reject_clean_partial :
   (forall w p, p_L (getp w p) <= p_loans (getp w p) -> pub_allocate_core w p = Val (w, AErr EExceedsMaxLoans))
   /\ (forall w p w', p_loans (getp w p) < p_L (getp w p) -> pub_allocate_core w p <> Val (w', AErr EExceedsMaxLoans))
   /\ (forall c bor o bor', conn_inv c bor -> snd (c_receive c) = RcvExceedsMaxBorrow -> minus_one bor o bor' ->
-        length (c_sub c) + length bor + length (c_comp c) <= c_B c + c_M c -> c_borrow c = c_M c ->
+        length (c_sub c) + length bor + length (c_comp c) <= c_B c + c_M c + 1 -> c_borrow c = c_M c ->
         fst (c_receive c) = c /\ exists c1, c_release c o = Val (c1, true) /\ snd (c_receive c1) <> RcvExceedsMaxBorrow)
   /\ (forall w l r h, first_free (r_slots (w_preg w)) 0 = None -> pub_create w l r h = Val (w, None))
   /\ (forall w, first_free (r_slots (w_sreg w)) 0 = None -> sub_create w None None = Val (w, (None, Some EMaxSubscribers)))
